@@ -177,7 +177,11 @@ async def worker_serve(
 
             await lifespan.wait_for_shutdown()
             lifespan_task.cancel()
-            await lifespan_task
+            try:
+                await lifespan_task
+            except asyncio.CancelledError:
+                if not lifespan_task.cancelled():
+                    raise
 
 
 def asyncio_worker(
